@@ -13,6 +13,7 @@ import (
 	"sync"
 	"sync/atomic"
 	"testing"
+	"time"
 
 	"go.uber.org/zap"
 	"go.uber.org/zap/internal/bufferpool"
@@ -82,6 +83,23 @@ type c08Probe struct {
 	late        []*Spec // context added by a With issued as part of every probe call
 	seen        []string
 	outstanding bool // P is issued as Check ... Write with another Check in between
+	skip        int         // AddCallerSkip of the probe's logger (the probe is issued from deep enough a stack)
+	cur         *zap.Logger // the logger P is being logged through right now
+	nestedOn    bool        // P's level/time/name encoder logs ANOTHER entry through that logger before doing its work
+	inNested    bool
+	nestedCount int
+	lastWrites  [][]byte // the sink writes of the last observe
+}
+
+// nest is what the wrapped encoder callbacks of the probe do first.
+func (p *c08Probe) nest() {
+	if !p.nestedOn || p.inNested || p.cur == nil {
+		return
+	}
+	p.inNested = true
+	defer func() { p.inNested = false }()
+	p.nestedCount++
+	p.cur.Info("nested entry, logged while the header of P is being encoded", zap.Int("nested", p.nestedCount))
 }
 
 func newC08Probe(t *rapid.T) *c08Probe {
@@ -95,6 +113,16 @@ func newC08Probe(t *rapid.T) *c08Probe {
 	p.caller = rapid.Bool().Draw(t, "callerAndStack")
 	p.level = zapcore.Level(rapid.IntRange(-1, 5).Draw(t, "probeLevel"))
 	p.depth = rapid.SampledFrom([]int{0, 0, 3, 70}).Draw(t, "probeDepth")
+	// the callbacks of P's encoder configuration can be told to log re-entrantly (they are user code)
+	if orig := p.c.cs.cfg.EncodeLevel; orig != nil {
+		p.c.cs.cfg.EncodeLevel = func(l zapcore.Level, pa zapcore.PrimitiveArrayEncoder) { p.nest(); orig(l, pa) }
+	}
+	if orig := p.c.cs.cfg.EncodeTime; orig != nil {
+		p.c.cs.cfg.EncodeTime = func(tm time.Time, pa zapcore.PrimitiveArrayEncoder) { p.nest(); orig(tm, pa) }
+	}
+	if orig := p.c.cs.cfg.EncodeName; orig != nil {
+		p.c.cs.cfg.EncodeName = func(n string, pa zapcore.PrimitiveArrayEncoder) { orig(n, pa); p.nest() }
+	}
 	var enc zapcore.Encoder
 	if p.console {
 		enc = zapcore.NewConsoleEncoder(p.c.cs.cfg)
@@ -108,7 +136,12 @@ func newC08Probe(t *rapid.T) *c08Probe {
 		zap.Hooks(func(zapcore.Entry) error { atomic.AddInt64(p.ehooks, 1); return nil })}
 	if p.caller {
 		opts = append(opts, zap.AddCaller(), zap.AddStacktrace(zapcore.WarnLevel))
+		// a wrapper library's skip: P itself is always issued from a stack deep enough for it
+		if p.skip = rapid.SampledFrom([]int{0, 0, 1, 2}).Draw(t, "callerSkip"); p.skip > 0 {
+			opts = append(opts, zap.AddCallerSkip(p.skip))
+		}
 	}
+	opts = append(opts, zap.ErrorOutput(&memSink{}))
 	lg := zap.New(zapcore.NewCore(enc, p.sink, zapcore.DebugLevel), opts...)
 	if p.c.ent.LoggerName != "" {
 		lg = lg.Named(p.c.ent.LoggerName)
@@ -135,6 +168,8 @@ func (p *c08Probe) run() {
 		if p.late != nil {
 			lg = lg.With(fieldsOf(p.late)...) // a derivation made after the history (holds pooled objects while P is encoded)
 		}
+		p.cur = lg
+		defer func() { p.cur = nil }()
 		if p.outstanding {
 			// P as Check + Write with ANOTHER checked entry outstanding in between
 			ce := lg.Check(p.level, p.c.ent.Message)
@@ -155,6 +190,7 @@ func (p *c08Probe) observe() c08Obs {
 	w0, h0, e0 := len(p.sink.writes), atomic.LoadInt64(p.hooks), atomic.LoadInt64(p.ehooks)
 	p.seen = nil
 	p.run()
+	p.lastWrites = p.sink.writes[w0:]
 	return c08Obs{string(bytes.Join(p.sink.writes[w0:], nil)), len(p.sink.writes) - w0, atomic.LoadInt64(p.hooks) - h0, atomic.LoadInt64(p.ehooks) - e0}
 }
 
@@ -185,7 +221,7 @@ func genC08History(t *rapid.T, maxOps int, discard *memSink, probeCfg ...*cfgSpe
 	), zap.AddCaller(), zap.AddStacktrace(zapcore.DebugLevel), zap.WithFatalHook(countHook{new(int64)}), zap.WithPanicHook(countHook{new(int64)}))
 	so := specOpts{faults: true, viaAny: true}
 	for i := 0; i < n; i++ {
-		kind := rapid.SampledFrom([]string{"log", "log", "bigopen", "gc", "poison", "deepstack", "errors", "clone", "terminal", "with", "sinkfail", "encfail", "panicmarshal", "reuse", "bigreflect", "ownlogger"}).Draw(t, "historyOp")
+		kind := rapid.SampledFrom([]string{"log", "log", "bigopen", "gc", "poison", "deepstack", "errors", "clone", "terminal", "with", "sinkfail", "encfail", "panicmarshal", "reuse", "bigreflect", "ownlogger", "shallow"}).Draw(t, "historyOp")
 		if kind == "reuse" && len(probeCfg) == 0 {
 			// histories that run on several goroutines (they get no probe configuration) must not misuse a
 			// CheckedEntry: after the first Write it is back in the pool and may already belong to another
@@ -303,6 +339,26 @@ func genC08History(t *rapid.T, maxOps int, discard *memSink, probeCfg ...*cfgSpe
 				}()
 			})
 			h.pools["json encoder"], h.pools["slice encoder"], h.pools["buffer"] = true, true, true
+		case "shallow":
+			// an entry of P's own logger (or a child of it) issued from a goroutine whose stack is shallower than
+			// the logger's caller skip: zap cannot name its caller. What that entry looks like is its own business;
+			// P, issued later from the usual place, is annotated as ever
+			viaChild := rapid.Bool().Draw(t, "shallowViaChild")
+			h.ops = append(h.ops, func() {
+				lg := h.own
+				if lg == nil {
+					return
+				}
+				if viaChild {
+					lg = lg.Named("shallow").With(zap.Int("shallow", 1))
+				}
+				done := make(chan struct{})
+				go func() {
+					defer close(done)
+					lg.Info("from a goroutine with nothing above it")
+				}()
+				<-done
+			})
 		case "ownlogger":
 			// earlier entries of P's own logger, its children and its siblings: without call-site fields, with
 			// them, with a namespace left open - none of them may change what the logger's next entry looks like
@@ -425,7 +481,7 @@ func propC08Sequential(t *rapid.T) {
 		keptMap = menc.Fields
 		keptText = fmt.Sprintf("%v", keptMap)
 	}()
-	phases := []string{"first call", "after history", "after GC", "after second history", "after GC followed by history"}
+	phases := []string{"first call", "after history", "after GC", "after second history", "after GC followed by history", "with entries logged from inside P's encoder callbacks"}
 	for ph, name := range phases {
 		switch ph {
 		case 1, 3:
@@ -438,8 +494,27 @@ func propC08Sequential(t *rapid.T) {
 			runtime.GC()
 			runtime.GC()
 			h.run()
+		case 5:
+			// P once more, and this time its level/time/name encoders (user code) log ANOTHER entry through the
+			// very same logger before P's line is complete: whatever is being collected for P belongs to P
+			p.nestedOn = true
 		}
 		got := p.observe()
+		if ph == 5 {
+			p.nestedOn = false
+			if ws := p.lastWrites; p.nestedCount > 0 {
+				if len(ws) != 1+p.nestedCount || string(ws[len(ws)-1]) != base.bytes {
+					t.Fatalf("P's output depends on an entry logged from inside its own encoder callbacks:\n alone:  %q\n nested: %q (%d writes, %d nested entries)\n probe: console=%v caller=%v level=%v %s",
+						clipS(base.bytes), clipS(string(ws[len(ws)-1])), len(ws), p.nestedCount, p.console, p.caller, p.level, p.c.render())
+				}
+				for _, w := range ws[:len(ws)-1] {
+					if !bytes.Contains(w, []byte("nested")) {
+						t.Fatalf("a nested entry's line is %q", clipS(string(w)))
+					}
+				}
+			}
+			continue
+		}
 		if ph == 0 {
 			base = got
 			if base.writes != 1 {
